@@ -756,9 +756,9 @@ def prepare(seed, tier):
     # read off cargo's resolution, not off the behaviour of skip: a tree whose no-alloc skip has learnt to cross an indefinite
     # container inside a definite one is allowed by the property and must be judged by the streams, not stop the check.
     import json as _json
-    extra = [a for a in runner.cargo_extra_args(None) if a != "--target-dir"]
-    extra = [a for i, a in enumerate(extra) if not (i > 0 and extra[i - 1] == "--target-dir")] if "--target-dir" in runner.cargo_extra_args(None) else extra
-    rc, out = runner.sh(["cargo", "metadata", "--format-version", "1", "--offline"] + [a for a in extra if a.startswith("--config") or a.startswith("paths=")], cwd=NOALLOC_DIR, timeout=600)
+    ea = runner.cargo_extra_args(None)                      # only the `--config paths=[..]` part applies to `cargo metadata`
+    cfg = [ea[i + k] for i, a in enumerate(ea) if a == "--config" for k in (0, 1)]
+    rc, out = runner.sh(["cargo", "metadata", "--format-version", "1", "--offline"] + cfg, cwd=NOALLOC_DIR, timeout=600)
     feats = None
     if rc == 0:
         try:
